@@ -1122,7 +1122,7 @@ def run(chk: core.Check):
                                         "one re-open at every operation boundary (or none)")
         chk.exhaustive = True
         # random histories
-        n = chk.pick(1500, 6000)
+        n = chk.pick(1500, 4500)
         max_ops = chk.pick(12, 40)
         batch, reals = [], []
         for _ in range(n):
